@@ -139,6 +139,43 @@ def directed_cases() -> Iterable[Dict[str, Any]]:
             yield {"ds": dss, "ops": number_ops(ops), "sched": s}
 
 
+# operations handed to the collection before start() (ids from 901: never equal to an id of the session)
+PRE_SHAPES: List[List[List[Any]]] = [
+    [["u", 1, 0, 901]],
+    [["u", 20, 0, 901], ["u", 20, 1, 902], ["t", 20], ["u", 0, 2, 903]],
+    [["p", 0], ["u", 1, 2, 901]],                 # paused before start(): the session itself is not paused
+    [["r", 3], ["u", 1, 1, 901], ["p", 2], ["t", 40]],
+]
+
+
+def outside_session_cases() -> Iterable[Dict[str, Any]]:
+    """messages, ticks, pause and resume that arrive while no recording is running, then a session"""
+    progs = [SMALL_PROGRAMS[0], SMALL_PROGRAMS[2], SMALL_PROGRAMS[3],
+             ([{"fmt": f, "types": "A", "interval": 30} for f in D.FORMATS], [["u", 1, 0], ["u", 16, 1], ["u", 31, 2]])]
+    for dss, ops in progs:
+        for pre in PRE_SHAPES:
+            for s in ["", "RW" * 60, "RRRRRWWW" * 12]:
+                yield {"ds": dss, "ops": number_ops(ops), "sched": s, "pre": pre}
+
+
+def random_pre(rng) -> List[List[Any]]:
+    out: List[List[Any]] = []
+    k = 900
+    for _ in range(rng.randint(1, 4)):
+        r = rng.random()
+        dt = rng.choice([0, 1, 16, 31])
+        if r < 0.6:
+            k += 1
+            out.append(["u", dt, rng.randrange(3), k])
+        elif r < 0.75:
+            out.append(["t", dt])
+        elif r < 0.9:
+            out.append(["p", dt])
+        else:
+            out.append(["r", dt])
+    return out
+
+
 def random_case(rng, long: bool) -> Dict[str, Any]:
     nds = rng.choice([1, 1, 2, 2, 3])
     dss = []
@@ -159,6 +196,8 @@ def random_case(rng, long: bool) -> Dict[str, Any]:
         else:
             ops.append(["r", dt])
     case = {"ds": dss, "ops": number_ops(ops)}
+    if rng.random() < 0.25:
+        case["pre"] = random_pre(rng)
     # schedule: bursts of random length, three flavours of writer speed
     flavour = rng.choice(["even", "slowW", "fastW", "bursty"])
     total = rng.randint(0, 3 * r_steps(case))
@@ -187,12 +226,12 @@ def fine_directed() -> Iterable[Dict[str, Any]]:
     scheds = ["", "R" * 900, "W" * 25, "RW" * 300, "RRW" * 200, "RWW" * 200, "RRRRRWWW" * 80, "RWWWWW" * 120,
               "RRRRRRRRW" * 80, "R" * 9 + "W" * 6 + "R" * 30, "R" * 9 + "W" * 3 + "R" * 12 + "W" * 9 + "R" * 40]
     seen = set()
-    for case in directed_cases():
-        key = (str(case["ds"]), str(case["ops"]))
+    for case in itertools.chain(directed_cases(), outside_session_cases()):
+        key = (str(case["ds"]), str(case["ops"]), str(case.get("pre")))
         if key in seen:
             continue
         seen.add(key)
-        for s in scheds:
+        for s in (scheds if not case.get("pre") else scheds[:1] + scheds[3:5]):
             yield dict(case, sched=s, faults=[])
 
 
@@ -282,9 +321,19 @@ def fmt_cases(rng, deep: bool) -> Iterable[Tuple[str, List[int], List[int], int]
 # running: the real code in worker processes, the Lean driver in the parent
 # ------------------------------------------------------------------------------------------------
 
+_STOP: Any = None      # multiprocessing.Event of the pool this worker belongs to: set = give back the remaining chunks unrun
+
+
+def _init_worker(ev) -> None:
+    global _STOP
+    _STOP = ev
+
+
 def _work(chunk: List[Tuple[str, str, Any]]) -> List[Tuple[str, str, Any, List[str], Dict[str, Any]]]:
     out = []
     for cid, kind, case in chunk:
+        if _STOP is not None and _STOP.is_set():
+            break
         if kind == "S":
             obs = D.run_sched_case(case)
             out.append((cid, kind, case, D.sched_block(cid, case, obs),
@@ -296,6 +345,8 @@ def _work(chunk: List[Tuple[str, str, Any]]) -> List[Tuple[str, str, Any, List[s
                         {"status": obs["status"], "warn": obs["warn"], "wexc": obs["wexc"], "rexc": obs["rexc"],
                          "trace": obs["trace"], "files": obs["files"], "fired": obs["fired"], "wdead": obs["wdead"],
                          "audit": obs["audit"]}))
+        elif kind == "M":
+            out.append((cid, kind, case, [], D.multi_session_check(*case)))
         else:
             o = D.run_fmt_case(*case)
             out.append((cid, kind, case, D.fmt_block(cid, o), {"exc": o["exc"], "n": len(o["msgs"])}))
@@ -313,8 +364,10 @@ def _account(res: C.Result, cid: str, kind: str, case: Any, blk: List[str], meta
             if l.startswith("FB "):
                 _bump(X["file_bytes_compared"], case["ds"][int(l.split(" ", 2)[1])]["fmt"])
     if kind == "S":
-        key = (tuple(map(str, case["ds"])), tuple(map(tuple, case["ops"])), case["sched"])
+        key = (tuple(map(str, case["ds"])), tuple(map(tuple, case["ops"])), case["sched"], str(case.get("pre")))
         nontrivial = any(t.startswith("W:write") for t in meta["trace"])
+        if case.get("pre"):
+            _bump(X["branches"], "operations handed to the collection before start()")
         res.note_case(key, nontrivial)
         _bump(X["outcomes"], meta["status"])
         for op in case["ops"]:
@@ -340,7 +393,10 @@ def _account(res: C.Result, cid: str, kind: str, case: Any, blk: List[str], meta
         if len(case["ops"]) >= 6:
             res.sample({"case": case, "impl": blk[-(2 + sum(len(f) for f in meta["files"])):-1], "verdicts": verdict})
     elif kind == "G":
-        key = ("G", tuple(map(str, case["ds"])), tuple(map(tuple, case["ops"])), case["sched"], tuple(case["faults"]))
+        key = ("G", tuple(map(str, case["ds"])), tuple(map(tuple, case["ops"])), case["sched"], tuple(case["faults"]),
+               str(case.get("pre")))
+        if case.get("pre"):
+            _bump(X["fine_branches"], "operations handed to the collection before start()")
         res.note_case(key, any(t.startswith("W:l") for t in meta["trace"]))
         _bump(X["fine_outcomes"], meta["status"] + (" (failure injected)" if case["faults"] else ""))
         for t in meta["trace"]:
@@ -367,18 +423,12 @@ def _account(res: C.Result, cid: str, kind: str, case: Any, blk: List[str], meta
         _bump(X["fmt_paths"], "direct finalize (no write before)" if not sizes else "temp-file path / multi-write")
 
 
-def _feed(res: C.Result, items: List[Tuple[str, str, Any]], pool) -> None:
-    if not items:
-        return
-    nproc = pool._processes if pool else 1
-    size = max(1, min(200, len(items) // (nproc * 4) + 1))
-    chunks = [items[i:i + size] for i in range(0, len(items), size)]
-    results = pool.map(_work, chunks) if pool else [_work(c) for c in chunks]
-    flat = [r for rs in results for r in rs]
-    lines: List[str] = []
-    for r in flat:
-        lines += r[3]
-    out = C.parse_driver(C.run_driver("datalog", lines))
+BATCH = 8000     # cases per call of the Lean driver
+
+
+def _settle(res: C.Result, flat: List[Tuple[str, str, Any, List[str], Dict[str, Any]]], out_lines: List[str]) -> None:
+    """verdicts of the driver for one batch of finished cases"""
+    out = C.parse_driver(out_lines)
     for cid, kind, case, blk, meta in flat:
         r = out.get(cid)
         if r is None:
@@ -399,6 +449,78 @@ def _feed(res: C.Result, items: List[Tuple[str, str, Any]], pool) -> None:
                 res.failures.append(C.Failure(clause=cl, case=cc, detail=detail, finding=_finding(cl, cc)))
 
 
+def _multi_session_verdict(res: C.Result, rs: List[Dict[str, Any]]) -> None:
+    ms_bad = []
+    for r in rs:
+        res.evaluations += 1
+        res.extra.setdefault("multi_session_runs", 0)
+        res.extra["multi_session_runs"] += 1
+        fmt, fl = r["fmt"], r["flush_every_update"]
+        if r["exc"]:
+            ms_bad.append((r, f"recording {len(r['sessions'])} raised {r['exc']}"))
+            continue
+        for si, sess in enumerate(r["sessions"]):
+            if sess["sent"] != sess["read"]:
+                ms_bad.append((r, f"recording {si} ({fmt}, flush_every_update={fl}): sent {sess['sent']}, the file(s) "
+                                  f"{sess['files']} contain {sess['read'][:14]}"))
+                break
+    for r, what in ms_bad[:2]:
+        res.failures.append(C.Failure(clause="several_recordings_with_one_collection: " + what[:150],
+                                      case={"multi_session": {"fmt": r["fmt"], "flush_every_update": r["flush_every_update"]}},
+                                      detail=what))
+
+
+def _feed(res: C.Result, items: List[Tuple[str, str, Any]], pool, until_failure: bool = False) -> None:
+    """The real code runs in the worker processes, chunk by chunk in the order of `items`; as soon as BATCH cases are
+    back they go to the Lean driver in a background thread while the workers go on with the next chunks (the driver
+    used to run between two barriers of the pool).  `until_failure`: stop feeding once a batch showed a failure of
+    the Spec on the implementation that is not a recorded finding."""
+    if not items:
+        return
+    from concurrent.futures import ThreadPoolExecutor
+    nproc = pool._processes if pool else 1
+    size = max(1, min(60, len(items) // (nproc * 8) + 1))
+    slow = [it for it in items if it[1] == "M"]          # real clock: one chunk each, first
+    rest = [it for it in items if it[1] != "M"]
+    chunks = [[it] for it in slow] + [rest[i:i + size] for i in range(0, len(rest), size)]
+    results = pool.imap(_work, chunks) if pool else map(_work, chunks)
+    multi: List[Dict[str, Any]] = []
+    pending: List[Tuple[List[Any], Any]] = []
+
+    def harvest(block: bool) -> None:
+        while pending and (block or pending[0][1].done()):
+            flat, fut = pending.pop(0)
+            _settle(res, flat, fut.result())
+
+    def launch(ex, flat) -> None:
+        lines: List[str] = []
+        for r in flat:
+            lines += r[3]
+        pending.append((flat, ex.submit(C.run_driver, "datalog", lines)))
+
+    with ThreadPoolExecutor(2) as ex:
+        batch: List[Any] = []
+        for rs in results:
+            for r in rs:
+                if r[1] == "M":
+                    multi.append(r[4])
+                else:
+                    batch.append(r)
+            if len(batch) >= BATCH:
+                launch(ex, batch)
+                batch = []
+            harvest(block=False)
+            if until_failure and [f for f in res.failures if not f.finding]:
+                batch = []
+                if pool:
+                    pool._verif_stop.set()      # the chunks still queued come back empty
+                break
+        if batch:
+            launch(ex, batch)
+        harvest(block=True)
+    _multi_session_verdict(res, multi)
+
+
 def _init_extra(res: C.Result):
     for k in ("outcomes", "op_kinds", "formats", "data_sets_per_case", "gate_labels", "branches", "fmt_cases",
               "fmt_paths", "file_bytes_compared", "fine_outcomes", "fine_gate_labels", "fine_branches", "fine_failure_hit_in"):
@@ -406,51 +528,49 @@ def _init_extra(res: C.Result):
 
 
 def _with_pool(fn):
+    """worker pool whose processes (and the code under test in them) keep every temporary file under one scratch
+    directory of this run, removed at the end whatever the workers left behind"""
+    D.fast_tmp()
+    old_tmp = tempfile.tempdir
+    root = tempfile.mkdtemp(prefix="pyrtma_verif_c17_")
+    tempfile.tempdir = root
     d = tempfile.mkdtemp(prefix="pyrtma_verif_dldefs_")
     D.write_defs(d)
     os.environ["VERIF_DL_DEFS_DIR"] = d
     nproc = min(16, os.cpu_count() or 2)
-    pool = mp.get_context("fork").Pool(nproc) if nproc > 1 else None
+    pool = None
     try:
-        return fn(pool)
-    finally:
+        if nproc > 1:
+            ctx = mp.get_context("fork")
+            ev = ctx.Event()
+            pool = ctx.Pool(nproc, initializer=_init_worker, initargs=(ev,))
+            pool._verif_stop = ev
+        r = fn(pool)
         if pool:
             pool.close()
+        return r
+    finally:
+        if pool:
+            pool.terminate()     # after an exception: do not run the chunks still queued
             pool.join()
-        shutil.rmtree(d, ignore_errors=True)
+        tempfile.tempdir = old_tmp
+        shutil.rmtree(root, ignore_errors=True)
         os.environ.pop("VERIF_DL_DEFS_DIR", None)
 
 
 def run(res: C.Result, deep: bool):
     _init_extra(res)
 
-    # several recordings with one DataCollection object (real threads, real clock; sequential use, no race involved)
-    ms_bad = []
-    for fmt in ("raw", "json", "quicklogger"):
-        for fl in (False, True):
-            r = D.multi_session_check(fmt, fl)
-            res.evaluations += 1
-            res.extra.setdefault("multi_session_runs", 0)
-            res.extra["multi_session_runs"] += 1
-            if r["exc"]:
-                ms_bad.append((r, f"recording {len(r['sessions'])} raised {r['exc']}"))
-                continue
-            for si, sess in enumerate(r["sessions"]):
-                if sess["sent"] != sess["read"]:
-                    ms_bad.append((r, f"recording {si} ({fmt}, flush_every_update={fl}): sent {sess['sent']}, the file(s) "
-                                      f"{sess['files']} contain {sess['read'][:14]}"))
-                    break
-    for r, what in ms_bad[:2]:
-        res.failures.append(C.Failure(clause="several_recordings_with_one_collection: " + what[:150],
-                                      case={"multi_session": {"fmt": r["fmt"], "flush_every_update": r["flush_every_update"]}},
-                                      detail=what))
+    # several recordings with one DataCollection object (real threads, real clock; sequential use, no race involved):
+    # six items of kind M, run by the workers next to everything else
     rng = C.rng_for(res.seed, "C17" + ("deep" if deep else ""))
-    items: List[Tuple[str, str, Any]] = []
+    items: List[Tuple[str, str, Any]] = [(f"m{fmt}{int(fl)}", "M", (fmt, fl))
+                                         for fmt in ("raw", "json", "quicklogger") for fl in (False, True)]
     n = 0
     for p in sorted((C.CORPUS / PROP).glob("*.case")) if (C.CORPUS / PROP).is_dir() else []:
         import json
         items.append((f"c{n}", "S", json.loads(p.read_text()))); n += 1
-    for case in directed_cases():
+    for case in itertools.chain(directed_cases(), outside_session_cases()):
         items.append((f"d{n}", "S", case)); n += 1
     ex = list(exhaustive_cases(deep))
     for case in ex:
@@ -489,10 +609,7 @@ def run(res: C.Result, deep: bool):
                 % (6 if deep else 5, 6, len(SMALL_PROGRAMS), len(ex), nrand[0], nrand[1],
                    4 if deep else 3))
 
-    def go(pool):
-        for i in range(0, len(items), 8000):
-            _feed(res, items[i:i + 8000], pool)
-    _with_pool(go)
+    _with_pool(lambda pool: _feed(res, items, pool))
     seen = set(res.extra["gate_labels"])
     res.extra["gate_labels_never_seen"] = [l for l in ALL_LABELS if l not in seen]
     res.assumptions = ["every access to an object both threads can reach is a scheduling point; code between two such "
@@ -503,34 +620,37 @@ def run(res: C.Result, deep: bool):
 def search(res: C.Result):
     """rule 2: model and code disagree but no failing input yet: explore schedules around the diverging cases"""
     _init_extra(res)
-    seeds = [d["case"]["case"] for d in res.corr_diffs if d["case"]["kind"] in "SG"][:12]
+    # VERIF_SEARCH_SCALE (default 1): a mutation sweep that runs this search hundreds of times may shrink it; a verdict
+    # "no failing input found" obtained with a scale below 1 is to be confirmed with the full search
+    scale = float(os.environ.get("VERIF_SEARCH_SCALE") or 1.0)
+    res.extra["search_scale"] = scale
+    seeds = [d["case"]["case"] for d in res.corr_diffs if d["case"]["kind"] in "SG"][:max(2, int(12 * scale))]
     items: List[Tuple[str, str, Any]] = []
     n = 0
     rng = C.rng_for(res.seed, "C17search")
     for case in seeds:
         base = {"ds": case["ds"], "ops": case["ops"]}
+        if case.get("pre"):
+            base["pre"] = case["pre"]
         nr = min(r_steps(base), 8)
         for first in "RW":
-            for s in itertools.islice(block_schedules(nr, 3 + len(case["ds"]), 5, first), 6000):
+            for s in itertools.islice(block_schedules(nr, 3 + len(case["ds"]), 5, first), int(6000 * scale)):
                 items.append((f"s{n}", "S", dict(base, sched=s))); n += 1
     for dss, ops in SMALL_PROGRAMS:
         base = {"ds": dss, "ops": number_ops(ops)}
         for first in "RW":
-            for s in block_schedules(min(r_steps(base), 8), 3 + len(dss), 5, first):
+            scheds = block_schedules(min(r_steps(base), 8), 3 + len(dss), 5, first)
+            for s in (scheds if scale >= 1 else itertools.islice(scheds, int(12000 * scale))):
                 items.append((f"s{n}", "S", dict(base, sched=s))); n += 1
-    for _ in range(3000):
+    for _ in range(int(3000 * scale)):
         items.append((f"s{n}", "S", random_case(rng, long=rng.random() < 0.3))); n += 1
-    for case in fine_exhaustive(False, rng):
-        items.append((f"s{n}", "G", case)); n += 1
-    for _ in range(3000):
+    if scale >= 1:
+        for case in fine_exhaustive(False, rng):
+            items.append((f"s{n}", "G", case)); n += 1
+    for _ in range(int(3000 * scale)):
         items.append((f"s{n}", "G", fine_random(rng, long=rng.random() < 0.3))); n += 1
 
-    def go(pool):
-        for i in range(0, len(items), 8000):
-            if [f for f in res.failures if not f.finding]:
-                break
-            _feed(res, items[i:i + 8000], pool)
-    _with_pool(go)
+    _with_pool(lambda pool: _feed(res, items, pool, until_failure=True))
 
 
 def replay(body: Dict[str, Any]) -> int:
